@@ -1290,7 +1290,7 @@ func (rr *IPSECKEY) parse(c *zlexer, o string) *ParseError {
 		return pErr
 	}
 	rr.PublicKey = s
-	return slurpRemainder(c)
+	return nil
 }
 
 func (rr *AMTRELAY) parse(c *zlexer, o string) *ParseError {
